@@ -15,7 +15,7 @@ Theorem refines_hist c h z l :
   Forall2 (ROut (RP c)) (impl_hist c h z) (spec_hist c h l).
 Proof.
   intros W F HP. unfold impl_hist, spec_hist.
-  apply (sim_run_hist (zstore c) (rstore c) c c EV (R c) (RP c)); auto using hist_valid_rel.
+  apply (sim_run_hist (zstore c) (rstore c) c c EV (R c) (RP c) false); auto using hist_valid_rel; try discriminate.
   - split; [reflexivity|apply Valid_nil].
   - intros n1 n2 [-> _]. reflexivity.
   - intros; apply sim_begin; auto.
